@@ -92,7 +92,8 @@ def main(argv):
             replay={'traceback': traceback.format_exception(type(e), e, e.__traceback__)[-12:], 'case': dict(common.CURRENT)}))
     # the translated-code tie no longer checks against the current source: search harder for a failing input
     tie = lean.get('tie') or {}
-    if tie.get('status') in ('broken', 'untranslatable') and not [v for v in res.violations if not v.no_failing_input]:
+    if tie.get('status') in ('broken', 'untranslatable') and not [v for v in res.violations if not v.no_failing_input] \
+            and not [v for v in res.violations if v.fingerprint.endswith('no-termination')]:      # (searching on would only hang again)
         extra = 4 if tier == 'quick' else 8
         more = 0
         for k in range(1, extra + 1):
